@@ -233,7 +233,7 @@ Definition variable_table : list (bytes * bool) := [
   (str "SERVER_PORT", false); (str "SESSIONID", false); (str "STATUS_LINE", false);
   (str "TIME", false); (str "TIME_DAY", false); (str "TIME_EPOCH", false); (str "TIME_HOUR", false);
   (str "TIME_MIN", false); (str "TIME_MON", false); (str "TIME_SEC", false); (str "TIME_WDAY", false);
-  (str "TIME_YEAR", false); (str "TX", true); (str "UNIQUE_ID", false); (str "URLENCODED_ERROR", false);
+  (str "TIME_YEAR", false); (str "TX", true); (str "UNIQUE_ID", false); (str "UNKNOWN", false); (str "URLENCODED_ERROR", false);
   (str "USERID", false); (str "XML", true) ].
 
 (* action types of plugintypes: 1 metadata, 2 disruptive, 3 data, 4 non-disruptive, 5 flow *)
@@ -757,29 +757,23 @@ Record dump := mk_dump {
   du_tags : list bytes; du_rev : bytes; du_ver : bytes
 }.
 
-(* None: RuleGroup.Add refuses the rule (''rule id is missing'') *)
-Definition compile_rule (d : rule_desc) : option dump :=
-  match r_actions d with
-  | [] => None
-  | al =>
-    let m := meta_of al in
-    if m_id m =? 0 then None else
-    Some (mk_dump (compile_targets (r_targets d))
-                  (option_map (fun o => (o_fn o, o_neg o, o_arg o)) (r_op d))
-                  (merged_names (m_phase m) al)
-                  (m_id m) (m_phase m) (m_msg m) (logdata_of al) (m_tags m) (m_rev m) (m_ver m))
-  end.
+(* applyParsedActions is not called at all when a SecRule has no action string *)
+Definition compile_rule (d : rule_desc) : dump :=
+  let al := r_actions d in
+  let m := meta_of al in
+  mk_dump (compile_targets (r_targets d))
+          (option_map (fun o => (o_fn o, o_neg o, o_arg o)) (r_op d))
+          (match al with [] => [] | _ => merged_names (m_phase m) al end)
+          (m_id m) (m_phase m) (m_msg m) (logdata_of al) (m_tags m) (m_rev m) (m_ver m).
 
+(* RuleGroup.Add (default build: the id is optional, a non-zero id must be unique) *)
 Fixpoint compile_rules (ds : list rule_desc) (seen : list N) : option (list dump) :=
   match ds with
   | [] => Some []
   | d :: r =>
-    match compile_rule d with
-    | None => None
-    | Some du =>
-      if existsb (N.eqb (du_id du)) seen then None
-      else option_map (cons du) (compile_rules r (du_id du :: seen))
-    end
+    let du := compile_rule d in
+    if negb (du_id du =? 0) && existsb (N.eqb (du_id du)) seen then None
+    else option_map (cons du) (compile_rules r (du_id du :: seen))
   end.
 
 Definition compile_config (files : list (bytes * bytes)) (text : bytes) : option (list dump) :=
